@@ -197,14 +197,6 @@ class C13:
                             break
                         prev_view[c] = None
                         continue
-                    if c in (21, 31) and ci["v"] and prev_view[c] is not None and oc.norm_value(shape, ci["val"], ci.get("ch")) == prev_view[c] and (
-                            st is not None or ticked(1, t) or ticked(2, t)):
-                        # below a nested boundary: the nested node was evaluated (one of its inputs ticked), re-bound its
-                        # forwarding output and thereby ticked the consumer with an unchanged value
-                        if not known:
-                            known = F10
-                            known_detail = "t=%d consumer %d below a nested boundary evaluated without cause, reading its previous value" % (t, c)
-                        continue
                     if c == 21 and not valid and not retarget and ticked(other, t) and ci["v"] and oc.norm_value(shape, ci["val"], ci.get("ch")) == state_at(other, t):
                         # known finding F21 (the other face of F3): the reference was retargeted to a target that holds no value - a
                         # silent retarget at which the nested pass-through node is not evaluated - so its forwarding output still
@@ -212,6 +204,14 @@ class C13:
                         if not known:
                             known = F21
                             known_detail = "t=%d consumer %d below the nested pass-through evaluated by a tick of the de-selected target (selected target holds no value)" % (t, c)
+                        continue
+                    if c in (21, 31) and ci["v"] and prev_view[c] is not None and oc.norm_value(shape, ci["val"], ci.get("ch")) == prev_view[c] and (
+                            st is not None or ticked(1, t) or ticked(2, t)):
+                        # below a nested boundary: the nested node was evaluated (one of its inputs ticked), re-bound its
+                        # forwarding output and thereby ticked the consumer with an unchanged value
+                        if not known:
+                            known = F10
+                            known_detail = "t=%d consumer %d below a nested boundary evaluated without cause, reading its previous value" % (t, c)
                         continue
                     v = ("consumer_evaluated_without_cause", "t=%d consumer %d evaluated (m=%d v=%d) but the selected target did not tick and no retarget to a valid target happened%s" % (
                         t, c, ci["m"], ci["v"], "; the unselected target ticked" if ticked(other, t) else ""))
